@@ -418,7 +418,11 @@ impl<'a> UserModel<'a> {
                         self.model.range_clear_all(&area)?;
                     }
                 }
-                Diff::DeleteSheet { sheet, old_data } => {
+                Diff::DeleteSheet {
+                    sheet,
+                    old_data,
+                    old_names,
+                } => {
                     needs_evaluation = true;
                     let sheet_name = &old_data.name.clone();
                     let sheet_index = *sheet;
@@ -443,6 +447,10 @@ impl<'a> UserModel<'a> {
                     worksheet.links = old_data.links.clone();
                     worksheet.conditional_formatting = old_data.conditional_formatting.clone();
                     worksheet.comments = old_data.comments.clone();
+                    self.model
+                        .workbook
+                        .defined_names
+                        .extend(old_names.iter().cloned());
                     self.model.reset_parsed_structures();
 
                     self.set_selected_sheet(sheet_index)?;
@@ -829,7 +837,7 @@ impl<'a> UserModel<'a> {
                     new_value,
                     old_value: _,
                 } => self.model.set_frozen_columns(*sheet, *new_value)?,
-                Diff::DeleteSheet { sheet, old_data: _ } => {
+                Diff::DeleteSheet { sheet, .. } => {
                     let sheet_count = self.model.workbook.worksheets.len() as u32;
                     self.model.delete_sheet(*sheet)?;
                     // The selection follows its sheet, as in `UserModel::delete_sheet`
